@@ -5,6 +5,7 @@ import (
 	"encoding/base64"
 	"encoding/json"
 	"fmt"
+	"io"
 	"net/http"
 	"net/url"
 	"sort"
@@ -32,6 +33,22 @@ type stObs struct {
 	Panic    string `json:"panic,omitempty"`
 }
 
+// stBackChannel plays the IdP's artifact resolution service for ParseResponse (SAMLart): whatever is asked, the
+// answer is the document under test (the party in the middle of the back channel decides what the SP reads).
+type stBackChannel struct {
+	doc  []byte
+	seen *string
+}
+
+func (b stBackChannel) RoundTrip(req *http.Request) (*http.Response, error) {
+	body, _ := io.ReadAll(req.Body)
+	*b.seen = req.Method + " " + req.URL.String() + " " + string(body)
+	return &http.Response{StatusCode: 200, Status: "200 OK", Proto: "HTTP/1.1", ProtoMajor: 1, ProtoMinor: 1,
+		Header: http.Header{"Content-Type": {"text/xml"}}, Body: io.NopCloser(bytes.NewReader(b.doc)), Request: req}, nil
+}
+
+const stArtifact = "AAQAAMh48/1oXIM+sDo7Dh2qMp1HM4IF5DaRNmDj6RdUmllwn9jJHyEgIi8="
+
 // stCall runs the real API on a concrete document.
 func stCall(cfg *stTrustCfg, cv stCfgVariant, entry string, doc []byte) stObs {
 	s := stNewSP(cfg, cv)
@@ -51,6 +68,19 @@ func stCall(cfg *stTrustCfg, cv stCfgVariant, entry string, doc []byte) stObs {
 			a, err = s.ParseResponse(req, []string{stRequestID})
 		case "artifact":
 			a, err = s.ParseXMLArtifactResponse(doc, []string{stRequestID}, stArtReqID, cur)
+		case "artifact-http":
+			// ParseResponse with SAMLart: the SP sends its own ArtifactResolve (ID drawn from saml.RandReader, see
+			// stArtReqID) over sp.HTTPClient and parses the body of the reply
+			var seen string
+			s.HTTPClient = &http.Client{Transport: stBackChannel{doc: doc, seen: &seen}}
+			form := url.Values{"SAMLart": {stArtifact}}
+			req, _ := http.NewRequest("POST", spACS, strings.NewReader(form.Encode()))
+			req.Header.Set("Content-Type", "application/x-www-form-urlencoded")
+			req.ParseForm()
+			a, err = s.ParseResponse(req, []string{stRequestID})
+			if !strings.Contains(seen, `ID="`+stArtReqID+`"`) || !strings.HasPrefix(seen, "POST https://idp.example.com/saml/artifact ") {
+				panic("harness: the SP's ArtifactResolve request is not the one the base messages answer: " + seen)
+			}
 		default:
 			panic("unknown entry " + entry)
 		}
@@ -141,7 +171,14 @@ func stReplayMap(c *stCase, o stObs) map[string]any {
 
 func stEntries(art string, h byte, all bool) []string {
 	if art != "none" {
-		return []string{"artifact"}
+		// the two artifact entry points: the SOAP reply handed over as bytes, or fetched by the SP itself
+		if all {
+			return []string{"artifact", "artifact-http"}
+		}
+		if h%2 == 0 {
+			return []string{"artifact"}
+		}
+		return []string{"artifact-http"}
 	}
 	if all {
 		return []string{"xml", "post"}
@@ -155,11 +192,14 @@ func stEntries(art string, h byte, all bool) []string {
 func TestC01(t *testing.T) {
 	rep := NewReport("C01")
 	defer rep.Finish(t)
-	rep.Rule = "every document emitted by spec/SigTree.tla (final abstract tree of a base IdP message after <= K attacker productions) is built concretely from the tree (genuine nodes and signatures copied from a message the harness signed with goxmldsig, forged nodes with another identity, attacker signatures made with the attacker's / the encryption-only key bottom-up, KeyInfo naming the signer's, any other known or no certificate, optional encryption to the SP certificate, seed-chosen comment / white-space / prefix variants) and run through ParseXMLResponse, ParseResponse (POST) or ParseXMLArtifactResponse on a ServiceProvider configured as the run's TRUST CONFIGURATION says (the table of configurations is emitted by the specification: key descriptors of the IdP metadata with use / EncryptionMethod / several certificates / several role descriptors / unparsable certificates, pinned IDPCertificate, IDPCertificateFingerprint + algorithm, each crossed with what the metadata lists at the same time; seed-chosen line-wrapped certificates and metadata passed through XML); the verdict is compared with the model's, and the returned assertion's identity-bearing content with the ledger of what the harness signed: it must have been signed with a key in TrustedKeys(configuration) as the statement defines it (pinned => only the pinned certificate, fingerprint => only a certificate with that fingerprint, else the signing-use certificates of the metadata); non-trivial = MustAccept or MustReject by the statement"
+	rep.Rule = "every document emitted by spec/SigTree.tla (final abstract tree of a base IdP message after <= K attacker productions) is built concretely from the tree (genuine nodes and signatures copied from a message the harness signed with goxmldsig, forged nodes with another identity, attacker signatures made with the attacker's / the encryption-only key bottom-up, KeyInfo written as the SEQUENCE the tree gives - X509Data elements with several certificates in order (the signer's, any other known one, an element that holds none, X509SubjectName), KeyValue elements, or no KeyInfo -, for artifact deliveries the SOAP envelope built from the tree too (soap:Header / second soap:Body / siblings holding forged, copied or moved ArtifactResponse / Response / Assertion elements before and after the signed one), optional encryption to the SP certificate, seed-chosen comment / white-space / prefix variants) and run through ParseXMLResponse, ParseResponse (POST), ParseXMLArtifactResponse or ParseResponse with SAMLart (the SP fetches the SOAP reply itself over sp.HTTPClient) on a ServiceProvider configured as the run's TRUST CONFIGURATION says (the table of configurations is emitted by the specification: key descriptors of the IdP metadata with use / EncryptionMethod / several certificates / several role descriptors / unparsable certificates, pinned IDPCertificate, IDPCertificateFingerprint + algorithm, each crossed with what the metadata lists at the same time; seed-chosen line-wrapped certificates and metadata passed through XML); the verdict is compared with the model's, and the returned assertion's identity-bearing content with the ledger of what the harness signed: it must have been signed with a key in TrustedKeys(configuration) as the statement defines it (pinned => only the pinned certificate, fingerprint => only a certificate with that fingerprint, else the signing-use certificates of the metadata); non-trivial = MustAccept or MustReject by the statement"
 	oldNow := saml.TimeNow
 	defer func() { saml.TimeNow = oldNow }()
 	now := c02Now.Add(time.Duration(seedVal()%1000) * time.Hour)
 	saml.TimeNow = func() time.Time { return now }
+	oldRand := saml.RandReader
+	defer func() { saml.RandReader = oldRand }()
+	saml.RandReader = stConstReader{} // the ID of the SP's ArtifactResolve request (entry artifact-http)
 	bases := &stBases{now: now, m: map[string]*stBase{}}
 
 	cfgs := stLoadTrustCfgs(rep)
@@ -168,11 +208,14 @@ func TestC01(t *testing.T) {
 	}
 	// vector files: the attack exploration under a few trust configurations, and the trust configurations
 	// (every one of them x the IdP's signing key) under one attacker step / two steps of the key family
-	fams := []stFamily{{file: "vectors.ndjson", name: "tree"}, {file: "vectors_tc.ndjson", name: "trustcfg", allRunsUpTo: 0, share: 6}}
+	// and the SOAP envelope of the artifact back channel under one configuration of each kind
+	fams := []stFamily{{file: "vectors.ndjson", name: "tree"}, {file: "vectors_tc.ndjson", name: "trustcfg", allRunsUpTo: 0, share: 10},
+		{file: "vectors_env.ndjson", name: "envelope", allRunsUpTo: 0, share: 2}}
 	if thorough() {
 		fams = []stFamily{{file: "vectors.ndjson", name: "tree", allRunsUpTo: 1, share: 3}, {file: "vectors3.ndjson", name: "tree", allRunsUpTo: 1, share: 3},
 			{file: "vectorsim.ndjson", name: "tree", allRunsUpTo: 1, share: 3},
-			{file: "vectors_tc.ndjson", name: "trustcfg", allRunsUpTo: 0, share: 3}, {file: "vectors_tc2.ndjson", name: "trustcfg", allRunsUpTo: 0, share: 4}}
+			{file: "vectors_tc.ndjson", name: "trustcfg", allRunsUpTo: 0, share: 3}, {file: "vectors_tc2.ndjson", name: "trustcfg", allRunsUpTo: 0, share: 6},
+			{file: "vectors_env.ndjson", name: "envelope", allRunsUpTo: 1, share: 1}, {file: "vectors_env2.ndjson", name: "envelope", allRunsUpTo: 1, share: 2}}
 	}
 	seen := map[string]bool{}
 	var vecs []*stVec
@@ -227,6 +270,16 @@ func TestC01(t *testing.T) {
 		}
 		kind := stCfgKind(c.Cfg)
 		stats["trustkind_"+kind+"_"+c.Class]++
+		stats["entry_"+c.Entry+"_"+c.Class]++
+		stats["family_"+c.Family+"_evaluations"]++
+		if c.Class == "MustReject" {
+			if kind == "fingerprint" && c.Cfg.Clean && stOutsiderListsTrusted(c.Tree, c.Cfg) {
+				stats["fingerprint_outsider_signature_whose_keyinfo_also_lists_the_trusted_certificate"]++
+			}
+			if stUnverifiedResponseBeforeVerified(c.Tree) {
+				stats["envelope_other_response_before_the_signed_artifactresponse"]++
+			}
+		}
 		if c.Class == "MustReject" && c.Cfg.Pin != "-" && c.GKey != stKeyNameOr(c.Cfg.Pin) && stListedForSigning(c.Cfg, c.GKey) && c.Family == "trustcfg" {
 			stats["pinned_but_signed_by_a_key_the_metadata_lists"]++
 		}
@@ -237,6 +290,7 @@ func TestC01(t *testing.T) {
 		v := vecs[i]
 		th := v.treeHash()
 		hb := []byte(th)[0]
+		hb2 := []byte(th)[1] // chooses the entry point independently of the share of configurations
 		// quick tier: a sampled share of the artifact-delivered documents
 		if !thorough() && v.fam.name == "tree" && v.B.Art != "none" && v.N == 2 && hb%3 != 0 {
 			bump("skipped_artifact_quick")
@@ -275,7 +329,7 @@ func TestC01(t *testing.T) {
 						return
 					}
 				}
-				for _, entry := range stEntries(v.B.Art, hb+byte(ri), thorough() && v.N <= 1 && (v.fam.name == "tree" || v.N == 0)) {
+				for _, entry := range stEntries(v.B.Art, hb2+byte(ri), thorough() && v.N <= 1 && (v.fam.name != "trustcfg" || v.N == 0)) {
 					c := &stCase{Key: th, Entry: entry, Trust: run.T, Cfg: cfg, CfgVar: cv, GKey: g, Layout: v.B.String(), Class: run.Cls, Pred: run.V,
 						Doc: docs[g], Ledger: b.ledger.flat(), Now: now.Format(time.RFC3339Nano), Variants: vr, Tree: v.T, Family: v.fam.name}
 					if (vr.any() || cv.any()) && c.Class == "MustAccept" {
@@ -310,6 +364,17 @@ func TestC01(t *testing.T) {
 	if stats["pinned_but_signed_by_a_key_the_metadata_lists"] == 0 {
 		rep.Break("vacuous: no message signed by a key that the metadata lists while another certificate is pinned")
 	}
+	if stats["fingerprint_outsider_signature_whose_keyinfo_also_lists_the_trusted_certificate"] == 0 {
+		rep.Break("vacuous: no outsider's signature whose KeyInfo lists several certificates, the trusted one among them, under a fingerprint configuration")
+	}
+	if stats["envelope_other_response_before_the_signed_artifactresponse"] == 0 {
+		rep.Break("vacuous: no SOAP envelope in which another Response precedes the signed ArtifactResponse")
+	}
+	for _, e := range []string{"xml", "post", "artifact", "artifact-http"} {
+		if stats["entry_"+e+"_MustAccept"] == 0 || stats["entry_"+e+"_MustReject"] == 0 {
+			rep.Break("vacuous: no MustAccept or no MustReject case through entry point %s", e)
+		}
+	}
 	mu.Unlock()
 
 	if cfgs["T1"] == nil || cfgs["T2"] == nil {
@@ -335,6 +400,71 @@ type stFamily struct {
 	name        string // "tree": attack exploration; "trustcfg": the trust-configuration dimension
 	allRunsUpTo int    // documents with at most this many attacker steps run under every configuration
 	share       int    // deeper ones under 1/share of them
+}
+
+// stOutsiderListsTrusted: some signature in the tree was made by an outsider's key and its KeyInfo holds several
+// certificates, one of them trusted under the configuration
+func stOutsiderListsTrusted(n *stNode, c *stTrustCfg) bool {
+	if n == nil {
+		return false
+	}
+	if n.K == "Sig" && (n.Key == "Katt" || n.Key == "Kenc") {
+		certs, trusted := 0, false
+		for _, g := range n.Ki {
+			for _, it := range g {
+				if it != "rsa" && it != "subj" {
+					certs++
+				}
+				for _, t := range c.Trusted {
+					if it == t {
+						trusted = true
+					}
+				}
+			}
+		}
+		if certs > 1 && trusted {
+			return true
+		}
+	}
+	for _, ch := range n.Ch {
+		if stOutsiderListsTrusted(ch, c) {
+			return true
+		}
+	}
+	return false
+}
+
+// stUnverifiedResponseBeforeVerified: a SOAP envelope in which an element named Response stands, in document order,
+// before the ArtifactResponse that is the only one in the only Body and carries a genuine signature
+func stUnverifiedResponseBeforeVerified(n *stNode) bool {
+	if n == nil || n.K != "Env" {
+		return false
+	}
+	seenResp := false
+	var walk func(x *stNode, inBody bool) bool
+	walk = func(x *stNode, inBody bool) bool {
+		switch x.K {
+		case "Resp":
+			seenResp = true
+		case "ArtResp":
+			if inBody && seenResp {
+				for _, ch := range x.Ch {
+					if ch.K == "Sig" && ch.Cov == "T0" {
+						return true
+					}
+				}
+			}
+		case "EncAssn":
+			return false
+		}
+		for _, ch := range x.Ch {
+			if walk(ch, x.K == "Body") {
+				return true
+			}
+		}
+		return false
+	}
+	return walk(n, false)
 }
 
 func stCfgKind(c *stTrustCfg) string {
@@ -597,6 +727,9 @@ func init() {
 		}
 		now, _ := time.Parse(time.RFC3339Nano, c.Now)
 		saml.TimeNow = func() time.Time { return now }
+		oldRand := saml.RandReader
+		defer func() { saml.RandReader = oldRand }()
+		saml.RandReader = stConstReader{}
 		if c.Cfg == nil {
 			t.Fatal("replay file without trust configuration")
 		}
